@@ -221,6 +221,7 @@ def run_scenario(ctx, report, name, spec, table, timeout_ms, gc=False):
                         r = sol.check()
                         if r == z3.unknown:
                             raise Inconclusive('solver timeout')
+                        common.cross_check(sol, r)
                         if r == z3.sat:
                             vios.append({'key': 'escalates.' + f, 'what': '[%s] the output needs %s, the input does not (model %s)' % (name, f, str(sol.model())[:120].replace('\n', ' ')),
                                          'spec': spec, 'model': sol.model(), 'steps': ('gc', 'emit') if gc else ('emit',), 'native_check': native_features(f)})
